@@ -784,4 +784,236 @@ theorem toURules_length (i : Nat) (rs : List CRule) : (toURules i rs).length = r
   | nil => rfl
   | cons r rs ih => simp [toURules, ih]
 
+/-! ### engine histories: the no-loop clause over several `fire_all` calls on one engine -/
+
+/-- the flag an activation carries is the flag of its rule -/
+def FlagOk (rules : List CRule) (a : Act) : Prop := a.noLoop = isNoLoopOf rules a.rule
+
+theorem enumFrom_get {α : Type} : ∀ (l : List α) (k i : Nat) (x : α), (i, x) ∈ enumFrom k l → k ≤ i ∧ l[i - k]? = some x := by
+  intro l
+  induction l with
+  | nil => intro k i x h; simp [enumFrom] at h
+  | cons y ys ih =>
+    intro k i x h
+    simp only [enumFrom, List.mem_cons, Prod.mk.injEq] at h
+    rcases h with ⟨h1, h2⟩ | h
+    · subst h1; subst h2; simp
+    · obtain ⟨k1, k2⟩ := ih (k + 1) i x h
+      refine ⟨by omega, ?_⟩
+      have : i - k = (i - (k + 1)) + 1 := by omega
+      rw [this]; simpa using k2
+
+theorem add_flag (rules : List CRule) (g : Agenda) (a : Act) (ha : FlagOk rules a) (hg : ∀ x ∈ g.acts, FlagOk rules x) :
+    (g.add a).fired = g.fired ∧ ∀ x ∈ (g.add a).acts, FlagOk rules x := by
+  obtain ⟨h1, _, h3, _⟩ := add_fields g a
+  refine ⟨h3, ?_⟩
+  intro x hx
+  rw [h1] at hx
+  split at hx
+  · exact hg x hx
+  · rcases List.mem_append.1 hx with h | h
+    · exact hg x h
+    · simp only [List.mem_singleton] at h; subst h; exact ha
+
+theorem foldl_add_flag (rules : List CRule) (i : Nat) (r : CRule) (hr : rules[i]? = some r) :
+    ∀ (ms : List (Nat × Int × Int)) (p : Agenda × Nat), (∀ x ∈ p.1.acts, FlagOk rules x) →
+      (ms.foldl (fun (p : Agenda × Nat) f =>
+        (p.1.add { rule := i, sal := r.prio, noLoop := r.noLoop, created := p.2, handle := some f.1 }, p.2 + 1)) p).1.fired = p.1.fired ∧
+      ∀ x ∈ (ms.foldl (fun (p : Agenda × Nat) f =>
+        (p.1.add { rule := i, sal := r.prio, noLoop := r.noLoop, created := p.2, handle := some f.1 }, p.2 + 1)) p).1.acts, FlagOk rules x := by
+  intro ms
+  induction ms with
+  | nil => intro p hp; exact ⟨rfl, hp⟩
+  | cons f fs ih =>
+    intro p hp
+    simp only [List.foldl_cons]
+    have hflag : FlagOk rules { rule := i, sal := r.prio, noLoop := r.noLoop, created := p.2, handle := some f.1 } := by
+      simp [FlagOk, isNoLoopOf, hr]
+    obtain ⟨a1, a2⟩ := add_flag rules p.1 _ hflag hp
+    obtain ⟨b1, b2⟩ := ih (p.1.add { rule := i, sal := r.prio, noLoop := r.noLoop, created := p.2, handle := some f.1 }, p.2 + 1) a2
+    exact ⟨b1.trans a1, b2⟩
+
+theorem incAddMatches_flag (rules : List CRule) (sk : Bool) (facts : List (Nat × Int × Int)) :
+    ∀ (l : List (Nat × CRule)), (∀ ir ∈ l, rules[ir.1]? = some ir.2) → ∀ (g : Agenda) (c : Nat),
+      (∀ x ∈ g.acts, FlagOk rules x) →
+      (incAddMatches sk l facts g c).1.fired = g.fired ∧ ∀ x ∈ (incAddMatches sk l facts g c).1.acts, FlagOk rules x := by
+  intro l
+  induction l with
+  | nil => intro _ g c hg; exact ⟨rfl, hg⟩
+  | cons ir rs ih =>
+    intro hl g c hg
+    obtain ⟨i, r⟩ := ir
+    have hr : rules[i]? = some r := hl (i, r) (by simp)
+    have hl' : ∀ ir ∈ rs, rules[ir.1]? = some ir.2 := fun ir h => hl ir (List.mem_cons_of_mem _ h)
+    simp only [incAddMatches]
+    split
+    · exact ih hl' g c hg
+    · obtain ⟨a1, a2⟩ := foldl_add_flag rules i r hr (facts.filter (cMatches r)) (g, c) hg
+      obtain ⟨b1, b2⟩ := ih hl' _ _ a2
+      exact ⟨b1.trans a1, b2⟩
+
+theorem enum_rules (rules : List CRule) : ∀ ir ∈ enumFrom 0 rules, rules[ir.1]? = some ir.2 := by
+  intro ir h
+  obtain ⟨i, r⟩ := ir
+  have := (enumFrom_get rules 0 i r h).2
+  simpa using this
+
+/-- invariant of an engine history: `since` (what the observer has seen fire since the last reset) is inside the agenda's
+fired-rule set, and every pending activation carries its rule's no-loop flag -/
+structure HInv (rules : List CRule) (e : Inc) (since : List Nat) : Prop where
+  rules_eq : e.rules = rules
+  sub : ∀ n ∈ since, n ∈ e.ag.fired
+  flags : ∀ a ∈ e.ag.acts, FlagOk rules a
+
+/-- the skipping steps of `fire_all` keep everything but the pending list, which shrinks; what they return was pending and
+passed the no-loop test of `get_next_activation` -/
+theorem incSkip_inc : ∀ (k : Nat) (e : Inc),
+    (incSkip incPop incStale k e).2.rules = e.rules ∧ (incSkip incPop incStale k e).2.facts = e.facts ∧
+    (incSkip incPop incStale k e).2.nextHandle = e.nextHandle ∧ (incSkip incPop incStale k e).2.ag.fired = e.ag.fired ∧
+    (∀ x ∈ (incSkip incPop incStale k e).2.ag.acts, x ∈ e.ag.acts) ∧
+    (∀ a, (incSkip incPop incStale k e).1 = some a → a ∈ e.ag.acts ∧ okNoLoop e.ag a = true) := by
+  intro k
+  induction k with
+  | zero =>
+    intro e
+    simp only [incSkip, incPop]
+    exact ⟨by trivial, by trivial, by trivial, (getNext_sets e.ag).1, (getNext_spec e.ag).sub, by intro a h; simp at h⟩
+  | succ k ih =>
+    intro e
+    simp only [incSkip, incPop]
+    cases hp : e.ag.getNext.1 with
+    | none => exact ⟨by trivial, by trivial, by trivial, (getNext_sets e.ag).1, (getNext_spec e.ag).sub, by intro a h; simp at h⟩
+    | some a =>
+      obtain ⟨_, k2, _, k4, _⟩ := (getNext_spec e.ag).some_ a hp
+      simp only
+      split
+      · obtain ⟨i1, i2, i3, i4, i5, i6⟩ := ih { e with ag := e.ag.getNext.2 }
+        refine ⟨i1, i2, i3, i4.trans (getNext_sets e.ag).1, fun x hx => (getNext_spec e.ag).sub x (i5 x hx), ?_⟩
+        intro b hb
+        obtain ⟨j1, j2⟩ := i6 b hb
+        refine ⟨(getNext_spec e.ag).sub b j1, ?_⟩
+        simpa [okNoLoop, (getNext_sets e.ag).1] using j2
+      · refine ⟨by trivial, by trivial, by trivial, (getNext_sets e.ag).1, (getNext_spec e.ag).sub, ?_⟩
+        intro b hb
+        simp only [Option.some.injEq] at hb
+        subst hb
+        exact ⟨k2, (eligible_parts k4).1⟩
+
+/-- one `fire_all` call inside a history: the names it returns pass the no-loop walk that starts from `since`, and the
+invariant holds again with the extended set -/
+theorem incLoop_hist (rules : List CRule) : ∀ (fuel : Nat) (e : Inc) (out since : List Nat), HInv rules e since →
+    ∃ new since', (incLoop incPop incStale (fun e => e.ag.acts.length) incBody fuel e out).2 = out ++ new ∧
+      noLoopNames (isNoLoopOf rules) since new = some since' ∧
+      HInv rules (incLoop incPop incStale (fun e => e.ag.acts.length) incBody fuel e out).1 since' ∧
+      (incLoop incPop incStale (fun e => e.ag.acts.length) incBody fuel e out).1.nextHandle = e.nextHandle := by
+  have hstop : ∀ (e e1 : Inc) (since : List Nat), HInv rules e since →
+      (incSkip incPop incStale e.ag.acts.length e).2 = e1 → HInv rules e1 since ∧ e1.nextHandle = e.nextHandle := by
+    intro e e1 since hI h
+    obtain ⟨i1, _, i3, i4, i5, _⟩ := incSkip_inc e.ag.acts.length e
+    rw [h] at i1 i3 i4 i5
+    exact ⟨⟨i1.trans hI.rules_eq, fun n hn => by rw [i4]; exact hI.sub n hn, fun a ha => hI.flags a (i5 a ha)⟩, i3⟩
+  intro fuel
+  induction fuel with
+  | zero =>
+    intro e out since hI
+    unfold incLoop
+    rcases hsk : incSkip incPop incStale e.ag.acts.length e with ⟨_ | a, e1⟩
+    · obtain ⟨h1, h2⟩ := hstop e e1 since hI (by rw [hsk])
+      exact ⟨[], since, by simp, rfl, h1, h2⟩
+    · obtain ⟨h1, h2⟩ := hstop e e1 since hI (by rw [hsk])
+      exact ⟨[], since, by simp, rfl, h1, h2⟩
+  | succ n ih =>
+    intro e out since hI
+    unfold incLoop
+    rcases hsk : incSkip incPop incStale e.ag.acts.length e with ⟨_ | a, e1⟩
+    · obtain ⟨h1, h2⟩ := hstop e e1 since hI (by rw [hsk])
+      exact ⟨[], since, by simp, rfl, h1, h2⟩
+    · obtain ⟨hI1, hnh1⟩ := hstop e e1 since hI (by rw [hsk])
+      obtain ⟨_, _, _, i4, _, i6⟩ := incSkip_inc e.ag.acts.length e
+      rw [hsk] at i4 i6
+      simp only at i4
+      obtain ⟨hmem, hok⟩ := i6 a rfl
+      simp only
+      -- the body: global re-propagation, then mark
+      obtain ⟨b1, b2⟩ := incAddMatches_flag rules true e1.facts (enumFrom 0 e1.rules)
+        (by rw [hI1.rules_eq]; exact enum_rules rules) e1.ag e1.clock hI1.flags
+      have hI2 : HInv rules (incBody e1 a).1 (setInsert a.rule since) := by
+        refine ⟨hI1.rules_eq, ?_, ?_⟩
+        · intro m hm
+          simp only [incBody, Agenda.mark]
+          rcases mem_setInsert.1 hm with h | h
+          · exact mem_setInsert.2 (Or.inl h)
+          · exact mem_setInsert.2 (Or.inr (by rw [b1]; exact hI1.sub m h))
+        · intro x hx
+          simp only [incBody] at hx
+          rw [(mark_focus _ a).2.1] at hx
+          exact b2 x hx
+      have hnh2 : (incBody e1 a).1.nextHandle = e1.nextHandle := rfl
+      obtain ⟨new, since', k1, k2, k3, k4⟩ := ih (incBody e1 a).1 (out ++ [(incBody e1 a).2]) (setInsert a.rule since) hI2
+      refine ⟨a.rule :: new, since', by rw [k1]; simp [incBody], ?_, k3, by rw [k4, hnh2, hnh1]⟩
+      simp only [noLoopNames]
+      have hcond : (isNoLoopOf rules a.rule && since.contains a.rule) = false := by
+        cases hnl : isNoLoopOf rules a.rule with
+        | false => rfl
+        | true =>
+          have hfl : a.noLoop = true := by rw [hI.flags a hmem]; exact hnl
+          have hnc : e.ag.fired.contains a.rule = false := by simpa [okNoLoop, hfl] using hok
+          have : ¬ a.rule ∈ since := fun hc => by
+            have := hI.sub a.rule hc
+            simp_all
+          simpa using this
+      rw [hcond]
+      simpa using k2
+
+/-- propagation after insert / update / retract keeps the invariant (it only adds activations) -/
+theorem hinv_propagate (rules : List CRule) (e : Inc) (since : List Nat) (facts : List (Nat × Int × Int)) (nh : Nat)
+    (hI : HInv rules e since) :
+    HInv rules { e with facts := facts, nextHandle := nh,
+                        ag := (incAddMatches false (enumFrom 0 e.rules) facts e.ag e.clock).1,
+                        clock := (incAddMatches false (enumFrom 0 e.rules) facts e.ag e.clock).2 } since := by
+  obtain ⟨b1, b2⟩ := incAddMatches_flag rules false facts (enumFrom 0 e.rules)
+    (by rw [hI.rules_eq]; exact enum_rules rules) e.ag e.clock hI.flags
+  exact ⟨hI.rules_eq, fun n hn => by simp only; rw [b1]; exact hI.sub n hn, b2⟩
+
+theorem histOk_trace (rules : List CRule) : ∀ (hops : List HOp) (e : Inc) (since : List Nat), HInv rules e since →
+    histOk (isNoLoopOf rules) incBound since e.nextHandle hops (e.htrace hops) = true := by
+  intro hops
+  induction hops with
+  | nil => intro e since _; simp [Inc.htrace, histOk]
+  | cons op ops ih =>
+    intro e since hI
+    cases op with
+    | insert a b =>
+      simp only [Inc.htrace, Inc.hstep, histOk, beq_self_eq_true, Bool.true_and]
+      have := ih (e.insert a b) since (hinv_propagate rules e since _ _ hI)
+      simpa [Inc.insert] using this
+    | update h a b =>
+      simp only [Inc.htrace, Inc.hstep, histOk]
+      unfold Inc.update
+      split
+      · exact ih _ since (hinv_propagate rules e since _ e.nextHandle hI)
+      · exact ih _ since hI
+    | retract h =>
+      simp only [Inc.htrace, Inc.hstep, histOk]
+      unfold Inc.retract
+      split
+      · exact ih _ since (hinv_propagate rules e since _ e.nextHandle hI)
+      · exact ih _ since hI
+    | fire =>
+      simp only [Inc.htrace, Inc.hstep, histOk, Inc.fireAllH]
+      obtain ⟨new, since', k1, k2, k3, k4⟩ := incLoop_hist rules incBound e [] since hI
+      have hlen := incLoop_length incPop incStale (fun e => e.ag.acts.length) incBody incBound e []
+      simp only [List.nil_append] at k1
+      rw [k1] at hlen ⊢
+      rw [k2]
+      simp only [List.length_nil, Nat.zero_add] at hlen
+      simp only [Bool.and_eq_true, decide_eq_true_eq]
+      refine ⟨hlen, ?_⟩
+      rw [← k4]
+      exact ih _ since' k3
+    | reset =>
+      simp only [Inc.htrace, Inc.hstep, histOk]
+      have hI' : HInv rules e.reset [] := ⟨hI.rules_eq, by intro n hn; simp at hn, by simpa [Inc.reset, Agenda.reset] using hI.flags⟩
+      exact ih e.reset [] hI'
+
 end C07
